@@ -1,6 +1,5 @@
--- imports PathRoundTrip_proof.lean (Probe.PathRT) and HeaderCookie_proof.lean (Probe.HC_all), both on UriCodec_feasibility.lean
-import Probe.PathRT
-import Probe.HC_all
+import PathRoundTrip_proof
+import HeaderCookie_proof
 /-! Proof probe for C06: path parameters never deliver a different value — every style, both explode values,
     every shape, every byte string. Step 1: what the server unescapes is the client's wire with the identity in
     place of `PathEscape` ("raw wire"). Step 2: the decoders on the raw wire. -/
